@@ -104,7 +104,7 @@ def r7_cfg_defmt(text, log):
                     log.append(("R7", "attribute removed: " + attr))
                     k = c
                 elif attr.startswith("# [ derive"):
-                    keep = [d for d in ("Debug", "Clone", "Copy", "Default") if re.search(r"\b%s\b" % d, attr)]
+                    keep = [d for d in ("Debug", "Clone", "Copy", "Default", "PartialEq") if re.search(r"\b%s\b" % d, attr)]
                     rep = "#[derive(%s)]" % ", ".join(keep) if keep else ""
                     edits.append((t.start, toks[c].end, rep))
                     log.append(("R7", f"{attr} -> {rep or 'removed'}"))
